@@ -12,6 +12,9 @@ import (
 )
 
 func main() {
+	if len(os.Args) > 1 && os.Args[1] == "check" {
+		os.Exit(checkMain(os.Args[2:]))
+	}
 	repo := flag.String("repo", "/repo", "repository")
 	hroot := flag.String("harness", "/verif/harness", "harness root (overlay)")
 	pkgs := flag.String("pkgs", "", "comma separated package patterns")
